@@ -314,18 +314,21 @@ fn fp_num(node: u32) -> std::num::NonZeroU64 {
 }
 
 /// on-demand: request states one by one (each must get evaluated), then run to completion
-pub fn on_demand(g: &Graph, requests: &[u32], threads: usize) -> Value {
+pub fn on_demand(g: &Graph, requests: &[u32], threads: usize, patience: &[bool]) -> Value {
     let model = TableModel::new(g.clone());
     let log = NodeLog(Arc::new(Mutex::new(vec![])));
     let c = model.clone().checker().threads(threads).visitor(log.clone()).spawn_on_demand();
     let mut seen_after = vec![];
     std::thread::sleep(Duration::from_millis(3));
     let idle_visits = log.0.lock().unwrap().len();
-    for r in requests {
+    for (ri, r) in requests.iter().enumerate() {
         c.check_fingerprint(fp_num(*r));
         let t0 = Instant::now();
         let mut seen = false;
-        while t0.elapsed() < Duration::from_millis(1500) {
+        // `patience` is only a hint for how long to wait (the caller expects this request to be evaluated or not); what
+        // was observed is recorded either way and later snapshots still show a state that was evaluated late
+        let wait = if patience.get(ri).cloned().unwrap_or(true) { 2000 } else { 40 };
+        while t0.elapsed() < Duration::from_millis(wait) {
             if log.0.lock().unwrap().contains(r) {
                 seen = true;
                 break;
@@ -390,7 +393,9 @@ pub fn main_explorer(inp: &str, out: &str) {
             if let Some(rs) = v["requests"].as_array() {
                 for (k, r) in rs.iter().enumerate() {
                     let req: Vec<u32> = serde_json::from_value(r.clone()).unwrap();
-                    od.push(on_demand(&g, &req, 1 + (k % 2)));
+                    let thr = v["od_threads"].as_u64().map(|x| x as usize).unwrap_or(1 + (k % 2));
+                    let pat: Vec<bool> = v["patience"].get(k).and_then(|p| serde_json::from_value(p.clone()).ok()).unwrap_or_default();
+                    od.push(on_demand(&g, &req, thr, &pat));
                 }
             }
             let rec = json!({"gi": v["gi"], "has_web": v["web"].as_bool().unwrap_or(true), "web": web, "paths": paths, "ondemand": od});
